@@ -5,7 +5,7 @@ import logging
 import weakref
 from typing import TYPE_CHECKING
 
-from claripy import Or, backends
+from claripy import Or, backends, false
 from claripy.ast import Base
 from claripy.errors import BackendError, UnsatError
 
@@ -490,9 +490,15 @@ class CompositeFrontend(ConstrainedFrontend):
 
         log.debug("... merging noncommon solvers")
         combined_noncommons = []
-        for ns in noncommon_solvers:
+        for cs, ns in zip([self, *others], noncommon_solvers, strict=True):
             log.debug("... %d", len(ns))
-            if len(ns) == 0:
+            if cs._unsat:
+                # a concrete False among its constraints lives in the flag only, not in any child: this alternative
+                # contributes no model
+                s = self._template_frontend.blank_copy()
+                s.add([false()])
+                combined_noncommons.append(s)
+            elif len(ns) == 0:
                 s = self._template_frontend.blank_copy()
                 combined_noncommons.append(s)
             elif len(ns) == 1:
@@ -510,4 +516,10 @@ class CompositeFrontend(ConstrainedFrontend):
         return True, merged
 
     def split(self):
-        return [s.branch() for s in self._solver_list]
+        parts = [s.branch() for s in self._solver_list]
+        if self._unsat:
+            # the concrete False that made this solver unsatisfiable is kept in the flag, not in a child
+            unsat_part = self._template_frontend.blank_copy()
+            unsat_part.add([false()])
+            parts.append(unsat_part)
+        return parts
